@@ -481,3 +481,126 @@ func ZZ_C11(shape int) {
 	}
 	verifhook.Canary()
 }
+
+
+// ---------- C10 (racing reverts) ----------
+
+type zzC10RaceShape struct {
+	N     int
+	Force bool
+}
+
+var zzC10RaceShapes = []zzC10RaceShape{{2, false}, {2, true}, {3, false}, {3, true}}
+
+func ZZ_C10RaceN() int { return len(zzC10RaceShapes) }
+
+func ZZ_C10RaceDesc(i int) string {
+	return fmt.Sprintf("%d concurrent reverts of one transaction, force=%v", zzC10RaceShapes[i].N, zzC10RaceShapes[i].Force)
+}
+
+// ZZ_C10Race: a transaction is reverted at most once however many revert requests race.
+func ZZ_C10Race(shape int) {
+	sh := zzC10RaceShapes[shape]
+	w, _, _, _, N := zzConcWorld(false)
+	ops := make([]zzOp, sh.N)
+	for i := range ops {
+		ops[i] = zzOp{Kind: zzKRevert, Target: N, Force: sh.Force, Tag: "revert"}
+	}
+	res := zzRunClients(w, ops, "")
+	verifhook.Reach("quiescent")
+	reverts := 0
+	for _, l := range w.store.Logs()[1:] {
+		if p, ok := l.Data.(ledger.RevertedTransactionLogPayload); ok && verifhook.Eq(p.RevertedTransactionID, N) {
+			reverts++
+		}
+	}
+	verifhook.Assert(reverts <= 1, "C10 a transaction was reverted more than once by racing requests")
+	ok := 0
+	for _, r := range res {
+		if r.returned && r.err == nil {
+			ok++
+		}
+	}
+	verifhook.Assert(ok <= 1, "C10 more than one racing revert of the same transaction succeeded")
+	verifhook.Assert(ok == reverts, "C10 successful reverts and revert log entries differ")
+	bal, _ := w.store.GetBalance(w.ctx, "seed", "USD/2")
+	if !sh.Force {
+		verifhook.Assert(bal.Sign() >= 0, "C10 racing unforced reverts overdrew the account")
+	}
+	verifhook.Canary()
+}
+
+
+// ---------- C08 (compilation cache under concurrency and eviction) ----------
+
+type zzC08CacheShape struct {
+	CacheSize  int
+	Concurrent bool
+	Same       bool // both clients submit the same text
+}
+
+var zzC08CacheShapes = []zzC08CacheShape{{1024, true, false}, {1, true, false}, {1, false, false}, {2, true, true}}
+
+func ZZ_C08CacheN() int { return len(zzC08CacheShapes) }
+
+func ZZ_C08CacheDesc(i int) string { return fmt.Sprintf("%+v", zzC08CacheShapes[i]) }
+
+func zzWorldSend(dest string) string {
+	return "vars {\nmonetary $m\n}\nsend $m (\n  source = @world\n  destination = @" + dest + "\n)\n"
+}
+
+// ZZ_C08Cache: getting a program from the compilation cache, under any cache size and
+// concurrency, gives the behaviour of the text that was submitted.
+func ZZ_C08Cache(shape int) {
+	sh := zzC08CacheShapes[shape]
+	st := zzNewStore()
+	zzPreload(st)
+	w := zzStartWithCache(st, NewDefaultLocker(), sh.CacheSize)
+	dests := []string{"x", "y"}
+	if sh.Same {
+		dests = []string{"x", "x"}
+	}
+	type outcome struct {
+		tx  *ledger.Transaction
+		err error
+	}
+	check := func(round string, i int, o outcome, amt *big.Int) {
+		verifhook.Assert(o.err == nil, "C08 "+round+": a valid script is refused")
+		if o.err != nil || o.tx == nil {
+			return
+		}
+		verifhook.Assert(len(o.tx.Postings) == 1, "C08 "+round+": the script of this request yields one posting")
+		if len(o.tx.Postings) == 1 {
+			verifhook.Assert(o.tx.Postings[0].Destination == dests[i] && o.tx.Postings[0].Source == "world", "C08 "+round+": the request ran another text's program (wrong destination)")
+			verifhook.Assert(verifhook.Eq(o.tx.Postings[0].Amount, amt), "C08 "+round+": amount differs from the supplied variable")
+		}
+	}
+	amts := []*big.Int{zzPosAmt("amt0"), zzPosAmt("amt1")}
+	run := func(i int) outcome {
+		tx, err := w.commander.CreateTransaction(w.ctx, Parameters{}, zzScript(zzWorldSend(dests[i]), map[string]string{"m": "USD/2 " + amts[i].String()}))
+		return outcome{tx, err}
+	}
+	outs := make([]outcome, 2)
+	if sh.Concurrent {
+		for i := range outs {
+			i := i
+			verifhook.Go(fmt.Sprintf("c%d", i), func() { outs[i] = run(i) })
+		}
+		verifhook.Quiesce()
+	} else {
+		outs[0] = run(0)
+		outs[1] = run(1)
+	}
+	verifhook.Reach("first-round")
+	for i := range outs {
+		check("first use", i, outs[i], amts[i])
+	}
+	// second round, sequential: cache hits (or re-compilation after eviction)
+	for k := 0; k < 2; k++ {
+		for i := range outs {
+			check("later use", i, run(i), amts[i])
+		}
+	}
+	verifhook.Reach("second-round")
+	verifhook.Canary()
+}
